@@ -21,6 +21,7 @@ import (
 	"bytes"
 	"fmt"
 	"net"
+	"os"
 	"reflect"
 	"runtime"
 	"sort"
@@ -131,32 +132,42 @@ func runSched(kind string, capacity, n int, phases []phase) []string {
 	var all []*call
 	quiesce := func() bool {
 		deadline := time.Now().Add(10 * time.Second)
+		confirm := 0
 		for spin := 0; ; spin++ {
-			pending := false
+			// the completion flags are read BEFORE the dump: a call counted as finished had finished when
+			// the dump was taken, so "all others parked in the dump" is a consistent quiescent snapshot
+			var open []*call
 			for _, c := range all {
 				if !c.done.Load() {
-					pending = true
+					open = append(open, c)
 				}
 			}
-			if !pending {
+			if len(open) == 0 {
 				return true
 			}
 			st := goStates()
-			ok := true
-			for _, c := range all {
-				if c.done.Load() {
-					continue
-				}
+			ok, stable := true, true
+			for _, c := range open {
 				g := c.gid.Load()
 				if g == 0 || !parkedState(st[g]) {
 					ok = false
 					break
 				}
+				if st[g] != "sync.Cond.Wait" && st[g] != "chan receive" {
+					stable = false // e.g. waiting for a mutex: may be a short contention, look again
+				}
 			}
-			if ok {
-				// a call that finished between the two looks is fine; parked ones stay parked until the next phase
+			if ok && stable {
 				return true
 			}
+			if ok {
+				if confirm++; confirm >= 4 {
+					return true
+				}
+				time.Sleep(2 * time.Millisecond)
+				continue
+			}
+			confirm = 0
 			if time.Now().After(deadline) {
 				return false
 			}
@@ -197,11 +208,11 @@ func runSched(kind string, capacity, n int, phases []phase) []string {
 				v, ok := q.Pull()
 				switch {
 				case ok:
-					res = fmt.Sprintf("got:%d", v)
+					res = "got:" + strconv.Itoa(v)
 				case v == 0:
 					res = "closed"
 				default:
-					res = fmt.Sprintf("odd:%d:false", v)
+					res = "odd:" + strconv.Itoa(v) + ":false"
 				}
 			case "close":
 				q.Close()
@@ -742,6 +753,11 @@ func queueStress(o *hx.Out) {
 			cfg.P, cfg.C = []int{1, 8, 1, 8}[i%4], []int{1, 1, 8, 8}[i%4]
 		}
 		cfg.mode = []string{"orderly", "racy", "quota", "racy"}[o.R.Intn(4)]
+		if cfg.kind == "ch" && cfg.mode == "racy" {
+			// a channel send racing with close is reported by the race detector (Go flags the pattern because
+			// the send may panic); push-after-close on the channel queue is exercised by the phased schedules
+			cfg.mode = "orderly"
+		}
 		if cfg.kind == "ch" && cfg.capacity == 0 && cfg.mode == "quota" {
 			cfg.capacity = 1
 		}
@@ -1213,6 +1229,18 @@ func playerListStress(o *hx.Out) {
 }
 
 func main() {
+	if len(os.Args) > 3 && os.Args[1] == "debug-sched" {
+		// debug-sched <kind> <cap> <n> <phases...>: repeat one schedule 200 times
+		capacity, _ := strconv.Atoi(os.Args[3])
+		n, _ := strconv.Atoi(os.Args[4])
+		ps := parsePhases(strings.Join(os.Args[5:], " "))
+		seen := map[string]int{}
+		for i := 0; i < 200; i++ {
+			seen[strings.Join(runSched(os.Args[2], capacity, n, ps), " ")]++
+		}
+		fmt.Println(seen, "spec:", refSched(os.Args[2], capacity, n, ps))
+		return
+	}
 	o := hx.Open()
 	defer o.Close()
 	exploreCases(o)
